@@ -362,10 +362,17 @@ impl<A: Ar> Exec<A> {
             Err(p) => {
                 hook::set_mode(Mode::Off);
                 let (class, detail) = panic_message(&p);
-                let is_alloc = matches!(op, Op::Alloc { .. } | Op::Fill);
-                let prop: &'static str = match (class, is_alloc) {
-                    (_, true) => "C04",
+                // a call that panics, leaves the arena or does not return violates the property that states what
+                // that call does
+                let prop: &'static str = match (class, op) {
+                    (_, Op::Alloc { .. }) | (_, Op::Fill) => "C04",
                     ("nontermination", _) => "C07",
+                    (_, Op::Truncate(_)) => "C18",
+                    (_, Op::Reopen { .. }) | (_, Op::Flush(_)) => "C05",
+                    (_, Op::Rewind(_)) | (_, Op::Clear) => "C17",
+                    (_, Op::DiscardFreelist) | (_, Op::IncDiscarded(_)) => "C20",
+                    (_, Op::SetMinSeg(_)) => "C16",
+                    (_, Op::Drop { .. }) | (_, Op::DetachDrop { .. }) | (_, Op::Dealloc { .. }) | (_, Op::CloneArena { .. }) | (_, Op::DropArena { .. }) => "C13",
                     _ => "CRASH",
                 };
                 self.v(prop, class, format!("{} during {:?}", detail, op));
@@ -1008,6 +1015,12 @@ impl<A: Ar> Exec<A> {
                     }
                     if post.discarded < pre.discarded {
                         self.v("C20", "decreased", format!("allocation lowered discarded {} -> {}", pre.discarded, post.discarded));
+                    }
+                    // discarded bytes are bytes that are never used again: an allocation that splits nothing off
+                    // releases nothing, so it cannot discard anything (what it does not need stays in its buffer)
+                    let split = post.nodes.iter().any(|n| !pre.nodes.iter().any(|m| m.0 == n.0));
+                    if !split && post.discarded != pre.discarded {
+                        self.v("C20", "alloc_discarded_live_bytes", format!("an allocation that put nothing back on the free list raised discarded {} -> {} (buffer [{},{}))", pre.discarded, post.discarded, boff, boff + bcap));
                     }
                     if post.min_seg != pre.min_seg {
                         self.v("C10", "min_seg_changed", "allocation changed the minimum segment size".into());
